@@ -13,6 +13,7 @@ ATTEMPTS = [None, 0, 1, 2, 3]
 DELAYS = [None, 0, 1, 3]
 EXCS = [None, [], ['E0'], ['E1'], ['E0', 'E2'], ['E2']]
 CLASSES = ['E0', 'E1', 'E2', 'B0']
+DFLT_RAISE = ['T0', 'E2', 'V0', 'E0']
 
 
 def sequences(maxlen=4):
@@ -125,6 +126,13 @@ def main(tier_):
             bylen.setdefault((len(sq), sq[-1] == 'ok'), []).append(sq)
         keys = sorted(bylen)
         full = [(rng.choice(cfgs), rng.choice(bylen[rng.choice(keys)])) for _ in range(6000)]
+        # a get_default that fails itself (an engine-defined error class or a builtin one)
+        full = [(dict(cfg, dflt_raise=rng.choice(DFLT_RAISE)) if cfg['use_default'] and rng.random() < 0.3 else cfg, seq)
+                for cfg, seq in full]
+    else:
+        extra = [(dict(cfg, dflt_raise=DFLT_RAISE[(i + len(seq)) % len(DFLT_RAISE)]), seq)
+                 for i, (cfg, seq) in enumerate(full) if cfg['use_default']]
+        full = full + extra
     for i, (cfg, seq) in enumerate(full):
         mode = 'inline' if i % 4 == 1 else 'coro'
         cases.append((cfg, seq, mode, i % 7 == 3, rng.randrange(1 << 30)))
@@ -156,7 +164,7 @@ def main(tier_):
         'distinct_nontrivial': len({json.dumps([r['cfg'], r['seq']]) for r in recs if len(r['seq']) > 1}),
         'exhaustive': exhaustive,
         'rule': 'grid attempts∈{None,0,1,2,3} × delay∈{None,0,1,3} × exceptions∈{None,(),(E0,),(E1,),(E0,E2),(E2,)} × '
-                'use_default × all outcome sequences of length ≤ 4 over {E0,E1<:E0,E2,B0<:BaseException,ok} '
+                'use_default (× a get_default that raises: ' + ('every use_default case once more' if exhaustive else '30 % of the use_default cases') + ') × all outcome sequences of length ≤ 4 over {E0,E1<:E0,E2,B0<:BaseException,ok} '
                 f'({"complete" if exhaustive else "6000 sampled cases"}); node under test in the middle of a pipeline '
                 '(every 7th inside a one-of candidate, every 4th inline, every 5th with a suspending on_node_complete); '
                 'virtual clock; non-trivial = at least one failing attempt',
